@@ -46,6 +46,8 @@ def cases(tier, seed):
         yield {"fam": "paircode", "i": i}
     for i in range(32 if tier == "quick" else 320):
         yield {"fam": "neartie", "i": i}
+    for i in range(2 if tier == "quick" else 12):
+        yield {"fam": "manypairs", "i": i}
 
 
 def setup(ctx):
@@ -212,6 +214,27 @@ def run(case, ctx):
     elif fam == "paircode":
         pred, refa = gen.paircode_boundary_pair(ctx.seed, i)
         ctx.count("f:family.paircode_boundary")
+    elif fam == "manypairs":
+        # several thousand candidate pairs in one call (work lists that are split into batches / per worker)
+        from panoptica.utils.processing_pair import UnmatchedInstancePair
+
+        n = [4100, 4300, 4097, 4096, 8200, 4095, 5000, 4200, 6000, 4099, 8193, 4500][i % 12]
+        refa = np.zeros(3 * n + 2, dtype=np.uint32)
+        pred = np.zeros_like(refa)
+        lab = np.arange(1, n + 1, dtype=np.uint32)
+        refa[0 : 3 * n : 3] = lab
+        refa[1 : 3 * n : 3] = lab
+        pred[1 : 3 * n : 3] = lab[::-1]
+        pred[2 : 3 * n : 3] = lab[::-1]
+        ctx.count("evaluations")
+        ctx.count("f:family.thousands_of_candidate_pairs")
+        try:
+            with pan.quiet():
+                pan.make_matcher({"kind": "naive", "metric": ["IOU", "DSC"][i % 2], "thr": 0.3, "m2o": bool(i % 3 == 2)}).match_instances(UnmatchedInstancePair(pred, refa))
+        except Exception:  # noqa: BLE001  (recorded by the monitor)
+            pass
+        ctx.nontrivial("manypairs", n, i)
+        return
     elif fam == "neartie":
         pred, refa = gen.near_tie_pair(ctx.seed, i)
         ctx.count("f:family.near_tie_large_instances")
